@@ -368,6 +368,20 @@ def case_cqm_fix(ctx, r, B):
         if attrs(q) != attrs(c):
             ctx.fail('property', site, ic, f'constraint attributes changed: {attrs(q)} vs {attrs(c)}', repro=repro)
             return
+        # round 8: every read accessor of every expression of the result reports one polynomial (the energy checks below read
+        # through iter_linear / iter_quadratic only)
+        from harness.props import accessors as ACC
+        for ename, get in exprs:
+            try:
+                bad, _ = ACC.disagreements(get(q))
+            except Exception as e:  # noqa
+                bad = [('reading', f'{type(e).__name__}: {e}')]
+            ctx.tick(f'{site}: read accessors compared')
+            if bad:
+                tgt = ('a' if path == 'in place' else 'b') + ('.objective' if ename == 'objective' else f'.constraints[{ename[len("constraint "):]}].lhs')
+                ctx.fail('property', site, ic + f'; read accessors; accessor={bad[0][0].split("(")[0].strip()}', f'{ename}: {bad[0][0]}: {bad[0][1]}',
+                         repro=R.script(ACC.repro_src(tgt)))
+                return
         for v in rest:
             if q.vartype(v) != c.vartype(v) or q.lower_bound(v) != c.lower_bound(v) or q.upper_bound(v) != c.upper_bound(v):
                 ctx.fail('property', site, ic, f'vartype/bounds of {v!r} changed', repro=repro)
